@@ -11,6 +11,8 @@
            ring head the model predicts, every ring index / tail the code
            reports must be the one the model computes, exhaustion is accepted
            only when the model's ring / queue is empty);
+           an awaited next() of a stream / read while the user holds every buffer
+           must have produced the exhaustion error (event 109);
            [0; index of the first rejected event; its kind] otherwise;
            [2; code] when the model panics. *)
 From Compio.Model Require Import Base Pool.
@@ -340,6 +342,18 @@ Definition event (drv size : N) (a : ast) (e : ev3) (rest : list ev3) : verdict 
     | 102%N =>
       if mem id (handle_ids s)
       then VNext (mk_ast (a_st a) (a_init a) (a_exp44 a) (Some id) (a_nsel a)) 0 else VReject
+    | 109%N =>
+      (* the consumer awaited next() on a slot: outcome x (0 = nothing within the
+         budget, 1 = a buffer, 2 = an error item, 3 = end), y = error code
+         + 256 * (the OS had data for the slot when the await began).
+         While the user holds every buffer of a live pool (and, on io_uring, data
+         is waiting) the only possible answer is the exhaustion error. *)
+      let err := (y mod 256)%N in
+      let pending := N.eqb ((y / 256) mod 2)%N 1 in
+      if N.eqb x 1 then VNext a 0 else    (* a buffer: its way into the handle was replayed above *)
+      if Nat.eqb (n_handles s) (nbuf s) && negb (released s) && (pending || negb (uring s))
+      then if N.eqb x 2 && (N.eqb err 1 || N.eqb err 3) then VNext a 0 else VReject
+      else VNext a 0
     | 107%N =>
       match wrap_rounds id s with
       | Some (Ok s') => VNext (set_st a s') 0
